@@ -61,3 +61,8 @@ def recursive_int(fn):
     """like `recursive`, for a spec function whose value is an integer"""
     fn._pv_recursive = 'int'
     return fn
+
+
+def forall_keys(d, pred):
+    """pred(k) for every key k of the dict d (in proofs: a universally quantified key of the symbolic map)"""
+    return all(pred(k) for k in list(d))
